@@ -10,17 +10,30 @@ H = "vlib.harness.c10"
 def specs(tier):
     out = []
     strategies = ("create_unique",) if tier == "quick" else ("create_unique", "merge", "replace", "warning", "error")
-    firsts = [("update", a) for a in range(3)] + [("delete", -1)] + [("relate", a) for a in range(3)] + [("reopen", -1)]
+    firsts = [("update", a, b) for a in range(3) for b in range(3)] + [("delete", -1, -1)] + [("relate", a, -1) for a in range(3)] + [("reopen", -1, -1)]
     seconds = ("update", "delete", "relate", "reopen")
     for st in strategies:
-        for (k1, a1), k2 in itertools.product(firsts, seconds):
+        for (k1, a1, b1), k2 in itertools.product(firsts, seconds):
             if (k1, k2) == ("reopen", "reopen"):
                 continue
-            out.append(XSpec("history[%s,%s%s -> %s]" % (st, k1, "" if a1 < 0 else "#%d" % a1, k2), H, "cond_history", "reach_history",
-                             timeout=900 if tier == "quick" else 2400, env=dict(VB_STRATEGY=st, VB_K1=k1, VB_K2=k2, VB_A1=a1),
+            if tier == "quick":
+                # the quick tier keeps the pairs whose second step depends on what the first left behind
+                if k1 == "update" and (a1 == 1 or b1 == 1):
+                    continue
+                if k1 != "update" and k2 != "update":
+                    continue
+                if k1 == "relate" and a1 == 1:
+                    continue
+            out.append(XSpec("history[%s,%s%s%s -> %s]" % (st, k1, "" if a1 < 0 else "#%d" % a1, "" if b1 < 0 else ".%d" % b1, k2), H,
+                             "cond_history", "reach_history",
+                             timeout=900 if tier == "quick" else 2400, env=dict(VB_STRATEGY=st, VB_K1=k1, VB_K2=k2, VB_A1=a1, VB_B1=b1),
                              bounds=dict(depth=2, strategy=st, first_step=k1, second_step=k2,
-                                         operands="update: ID none/n1/exon_1 x Parent none/m; delete: m/exon_1/zz; add_relation: 6 triples; reopen",
+                                         operands="update: ID none/n1/exon_1 x Parent none/m/zz(dangling); delete: m/exon_1/zz; add_relation: 6 triples; reopen",
                                          then="final reopen + an ID-less probe update (keys never recycle)")))
+        for a1 in (0, 1):
+            out.append(XSpec("history[%s,all initial ids explicit,update#%d -> update]" % (st, a1), H, "cond_history", "reach_history",
+                             timeout=900, env=dict(VB_STRATEGY=st, VB_K1="update", VB_K2="update", VB_A1=a1, VB_INIT="explicit", VB_B1=0 if tier == "quick" else -1),
+                             bounds=dict(depth=2, initial="no auto-generated key yet (empty counter table)", steps="two updates on the same handle")))
         out.append(XSpec("history[%s,failing update source]" % st, H, "cond_history", "reach_history", timeout=600,
                          env=dict(VB_STRATEGY=st, VB_K1="failing_update", VB_K2="reopen"),
                          bounds=dict(depth=1, fault="the feature source raises after 0-2 features", checked=".bak equals the pre-operation database; the failure propagates")))
